@@ -5,6 +5,7 @@ import STProofs.EnergyIntegral
 import STProofs.CubicMinimal
 import STProofs.QuinticMinimal
 import STProofs.SepticMinimal
+import STProofs.CubicUnique
 import Mathlib.Analysis.Calculus.ContDiff.Deriv
 /-!
 # C02 — minimum acceleration / jerk / snap interpolant (property theorems, every N, positive durations)
@@ -16,7 +17,7 @@ All three parts of the property are theorems:
   (`cubic_build_spec`, `QuinticPiv.quintic_KKT`, `SepticPiv.septic_KKT`) — unconditionally, because no pivot of the block
   elimination vanishes (`pivok_cubic`, `QuinticPiv.detOK_of_pos`, `SepticPiv.detOK_of_pos`);
 * **uniqueness**: any knot derivatives whose Hermite closure satisfies the optimality conditions are the computed ones
-  (`QuinticPiv.quintic_unique`, `SepticPiv.septic_unique`; cubic: the Thomas solve of a strictly diagonally dominant system);
+  (`CubicU.cubic_unique`, `QuinticPiv.quintic_unique`, `SepticPiv.septic_unique`);
 * **minimality among all sufficiently smooth curves**: `C02_minimiser_cubic` (for `C²` competitors, stated with
   `ContDiff` / `deriv`), `CubicMin.cubic_minimal`, `QuinticMin.quintic_minimal`, `SepticMin.septic_minimal` (competitor
   given by its derivative chain with a continuous top derivative).
